@@ -112,13 +112,14 @@ class Operator:
             )
             return
 
-        for pddl_object in self.problem_objects.values():
+        quantified_objects = {**self.domain.constants, **self.problem_objects}
+        for pddl_object in quantified_objects.values():
             self.logger.debug(
                 f"Trying to apply the action's universal effects on the object: {pddl_object.name}"
             )
 
             for universal_effect in self.lifted_universal_effects:
-                if pddl_object.type.name != universal_effect.quantified_type.name:
+                if not pddl_object.type.is_sub_type(universal_effect.quantified_type):
                     continue
 
                 self.logger.debug(
